@@ -199,8 +199,14 @@ package dhcp
 //@ functype Server.onCircuitIDCollision()
 //@   modifies nothing
 
+// Addresses go back to the free list (or into quarantine) only when a session ends: neither
+// REQUEST nor DISCOVER releases or quarantines anything, whatever the message contains.
 //@ func (s *Server) handleRequest
 //@   ghost poolOwner int = 0
+//@   ghost relPool mathint = 0
+//@   ghost markedUnavailable mathint = 0
+//@   ghost relSessions mathint = 0
+//@   ensures relPool == 0 && markedUnavailable == 0 && relSessions == 0
 //@   ensures s.acksTotal == old(s.acksTotal) + 1 ==> (existingLease != nil && ipkey(existingLease.IP) == ipkey(requestedIP)) || poolOwner == 1 || old(s.httpAllocator != nil && s.httpAllocatorPool != "")
 
 // The OFFER path of handleDiscover (the only place that increments offersTotal)
@@ -210,4 +216,8 @@ package dhcp
 //@ func (s *Server) handleDiscover
 //@   ghost allocOK int = 0
 //@   ghost allocKey int = 0
+//@   ghost relPool mathint = 0
+//@   ghost markedUnavailable mathint = 0
+//@   ghost relSessions mathint = 0
+//@   ensures relPool == 0 && markedUnavailable == 0 && relSessions == 0
 //@   ensures s.offersTotal == old(s.offersTotal) + 1 ==> (existingLease != nil && ip == existingLease.IP) || (allocOK == 1 && ipkey(ip) == allocKey) || old(s.httpAllocator != nil && s.httpAllocatorPool != "") || old(s.nexusClient != nil)
